@@ -677,9 +677,7 @@ def es_copy(ctx):
     cp = emc.methods.get('correct_pva')
     ctx.need(cp is not None, 'InsErrorModel.correct_pva not found')
     h = _CH()
-
-    class H2(_CH):
-        pass
+    h.summaries = True
     ev = SymEval(repo, Alg(), hooks=h)
     A = ev.A
     # Rotation.from_rotvec(v).as_matrix() -> unknown rotation matrix M (atoms)
